@@ -73,10 +73,64 @@ func stringSliceVar(p *Prog, pkgRel, name string) (vals []string, pos token.Pos,
 	return nil, token.NoPos, false
 }
 
+// paramRole describes a parameter anchor by type and ordinal among the
+// parameters of that type, so that renaming a parameter does not lose it.
+var paramRole = map[string]struct {
+	typ string
+	nth int
+}{
+	"locked":         {"bool", 0},
+	"name":           {"string", 0},
+	"path":           {"string", 0},
+	"query":          {"string", 0},
+	"reporter":       {"string", 0},
+	"check":          {"internal/checks.RuleChecker", 0},
+	"enabledChecks":  {"[]string", 0},
+	"disabledChecks": {"[]string", 1},
+	"promTags":       {"[]string", 2},
+	"defaultStates":  {"[]string", 0},
+	"cfgRules":       {"[]internal/config.Rule", 0},
+	"ignore":         {"[]internal/config.Match", 0},
+	"match":          {"[]internal/config.Match", 1},
+	"e":              {"internal/discovery.Entry", 0},
+	"entries":        {"[]internal/discovery.Entry", 0},
+	"s":              {"internal/checks.Severity", 0},
+	"err":            {"error", 0},
+	"strictErrors":   {"bool", 0},
+	"ls":             {"internal/parser/utils.Source", 0},
+	"rs":             {"internal/parser/utils.Source", 1},
+}
+
+func paramTypeKey(t types.Type) string {
+	switch x := t.(type) {
+	case *types.Slice:
+		return "[]" + paramTypeKey(x.Elem())
+	case *types.Pointer:
+		return "*" + paramTypeKey(x.Elem())
+	}
+	if q := typeQName(t); q != "" {
+		return q
+	}
+	return t.String()
+}
+
+// paramIndex finds a parameter by name; when no parameter has that name
+// (renamed), by its role: the nth parameter of the recorded type.
 func paramIndex(sig *types.Signature, name string) int {
 	for i := 0; i < sig.Params().Len(); i++ {
 		if sig.Params().At(i).Name() == name {
 			return i
+		}
+	}
+	if r, ok := paramRole[name]; ok {
+		k := 0
+		for i := 0; i < sig.Params().Len(); i++ {
+			if paramTypeKey(sig.Params().At(i).Type()) == r.typ {
+				if k == r.nth {
+					return i
+				}
+				k++
+			}
 		}
 	}
 	return -1
@@ -90,6 +144,7 @@ func runC08(c *Ctx) {
 	c.Rule("C08-R4", "checks.OnlineChecks == {Reporter() | Meta().Online}; CLI expansion loops range over the tables", 28)
 	c.Rule("C08-R5", "docs/checks/<name>.md exists for every check name", 27)
 	c.Rule("C08-R6", "enabled/disabled lists are matched against the registered name by equality", 6)
+	defer c08ServersAlways(c)
 
 	impls := checkerTypes(c, "C08-R3")
 	reporters := map[string]string{} // type qname -> reporter
@@ -114,11 +169,18 @@ func runC08(c *Ctx) {
 		}
 		// the constructor must copy name/check into the parsedRule fields of the same role
 		for _, cl := range compositeLits(cfgPkg.TypesInfo, reg.Decl.Body, "internal/config.parsedRule") {
-			for field, param := range map[string]string{"name": "name", "check": "check", "tags": "tags"} {
+			// tags: the last []string parameter of the constructor
+			ti := -1
+			for i := 0; i < sig.Params().Len(); i++ {
+				if sig.Params().At(i).Type().String() == "[]string" {
+					ti = i
+				}
+			}
+			for field, pi := range map[string]int{"name": ni, "check": ci, "tags": ti} {
 				v := litField(cl, field)
 				id, _ := v.(*ast.Ident)
-				c.Check(id != nil && id.Name == param, "C08-R1", regName+":field:"+field, cl.Pos(),
-					"field copied from parameter", "parsedRule."+field+" is not the `"+param+"` parameter")
+				c.Check(id != nil && pi >= 0 && cfgPkg.TypesInfo.Uses[id] == sig.Params().At(pi), "C08-R1", regName+":field:"+field, cl.Pos(),
+					"field copied from parameter", "parsedRule."+field+" is not the constructor's `"+field+"` parameter")
 			}
 		}
 		seq := map[string]int{}
@@ -404,7 +466,7 @@ func c08Reporter(c *Ctx, fn *FuncInfo, key string, rep ast.Expr, reporters map[s
 	}
 	// parameter named reporter of problemFromError (call sites are checked separately)
 	if id, ok := ast.Unparen(rep).(*ast.Ident); ok && fn.Name == "internal/checks.problemFromError" {
-		if v, ok := info.Uses[id].(*types.Var); ok && v.Name() == "reporter" {
+		if v, ok := info.Uses[id].(*types.Var); ok && isReporterParam(c.P, v) {
 			c.Ok("C08-R2", key, pos, "reporter parameter; every call site is an obligation of its own")
 			return
 		}
@@ -573,7 +635,7 @@ func c08Matching(c *Ctx) {
 				if objOf(info, other) == nameP && b.Op == token.EQL {
 					eqName = true
 				} else {
-					others = append(others, exprStr(other))
+					others = append(others, roleStr(info, other))
 				}
 				return true
 			})
@@ -605,7 +667,7 @@ func c08Matching(c *Ctx) {
 		// accepted spellings besides name: check.String() and name(+tag)
 		okOthers := true
 		for _, o := range others {
-			if o != "check.String()" && !strings.HasPrefix(o, "fmt.Sprintf(\"%s(+%s)\", name, ") {
+			if o != "«RuleChecker».String()" && !strings.HasPrefix(o, "fmt.Sprintf(\"%s(+%s)\", str, ") {
 				okOthers = false
 			}
 		}
@@ -698,4 +760,46 @@ func c08Matching(c *Ctx) {
 	} else {
 		c.Undecided("C08-R6", "parsedRule.isEnabled:cfgRules parameter", pr.Decl.Pos(), "parameter not found")
 	}
+}
+
+// isReporterParam: v is the `reporter` parameter of checks.problemFromError
+// (by role: the first string parameter).
+func isReporterParam(p *Prog, v *types.Var) bool {
+	pfe := p.Func("internal/checks.problemFromError")
+	if pfe == nil {
+		return false
+	}
+	sig := pfe.Obj.Type().(*types.Signature)
+	i := paramIndex(sig, "reporter")
+	return i >= 0 && sig.Params().At(i) == v
+}
+
+// c08ServersAlways: --offline switches checks off by NAME (the online list);
+// it must not change which servers exist, because checks that are not in that
+// list but are instantiated per server (rule/duplicate, …) would silently
+// disappear. GenerateStatic is called by every action regardless of isOffline.
+func c08ServersAlways(c *Ctx) {
+	p := c.P
+	gen := p.Func("internal/config.PrometheusGenerator.GenerateStatic")
+	if gen == nil {
+		c.Undecided("C08-R4", "anchor:GenerateStatic", token.NoPos, "method not found")
+		return
+	}
+	n := 0
+	for _, cs := range p.CallersOf(gen.Obj) {
+		if p.IsTestFile(cs.Call.Pos()) || relPkg(cs.Caller.Pkg.PkgPath) != "cmd/pint" {
+			continue
+		}
+		n++
+		pm := parentMap(cs.Caller.Decl.Body)
+		bad := ""
+		for _, a := range lexicalGuards(pm, cs.Call, cs.Caller.Decl.Body) {
+			if strings.Contains(exprStr(a.E), "isOffline") || strings.Contains(strings.ToLower(exprStr(a.E)), "offline") {
+				bad = exprStr(a.E)
+			}
+		}
+		c.Check(bad == "", "C08-R4", cs.Caller.Name+":Prometheus servers are set up regardless of --offline #"+itoa(n), cs.Call.Pos(), "unconditional w.r.t. offline",
+			"GenerateStatic is skipped under `"+bad+"`: with --offline no server exists, so per-server checks that are NOT in the online list (rule/duplicate) stop running although their name was never disabled")
+	}
+	c.Check(n >= 3, "C08-R4", "actions set up Prometheus servers", token.NoPos, itoa(n)+" call sites in cmd/pint", "expected GenerateStatic to be called by lint, ci and watch")
 }
